@@ -802,6 +802,10 @@ impl Property for C07 {
                 // a formerly entitled attacker can legitimately have authored rows that conflict with the
                 // honest ones (same row id, its own signature): what happens then is not part of this property
                 o.label("former-role-attacker");
+            } else if st.sync_errors.is_empty() && not_included(&after, &honest).is_some() {
+                // the candidate already made the victim accept unentitled entries (reported above, under its own
+                // signature): what the honest update can or cannot repair afterwards is a consequence of that
+                o.label("honest-update-after-unentitled-acceptance:not-judged");
             } else if st.sync_errors.is_empty() {
                 if omission {
                     // a truncated definition carrying the newest date is not repaired before the next change
